@@ -150,7 +150,13 @@ def stepMethod (d : Drv) (line : String) : Drv × Option String :=
            | some m => mismatch d m line "constructor-state"
            | none => (d, none))
         | _ => ({ d with ops := d.ops + 1, cs := .skip }, none)
-  | .method name params st ctx prev lonly spec, "X" :: inToks =>
+  | .method name params st ctx _ lonly spec, "T" :: preToks =>
+    -- late-position case (C07): the implementation's own state right before the sampled step, for the per-step tie;
+    -- the marker keeps the fresh model's state from being compared with the long-run state (ring phase differs)
+    ({ d with cs := .method name params st ctx ("T" :: preToks) lonly spec }, none)
+  | .method name params st ctx prev0 lonly spec, "X" :: inToks =>
+    let isLocal := prev0.head? == some "T"
+    let prev := if isLocal then prev0.drop 1 else prev0
     match inToks.mapM fzOf with
     | none => ({ d with cs := .skip }, some s!"NOTE case={d.caseId} non-finite input skipped")
     | some inp =>
@@ -191,7 +197,7 @@ def stepMethod (d : Drv) (line : String) : Drv × Option String :=
                           lsteps := d.lsteps + (if ls.isSome then 1 else 0),
                           specs := d.specs + (match sv with | .none => 0 | _ => 1),
                           cs := .method name params st' ctx leaves false spec' }
-        let bad2 := if leaves.isEmpty then none
+        let bad2 := if leaves.isEmpty || isLocal then none
           else (cmpAll (cmpLeaf ctx (ctx.allow (stateScale ctx st'))) (mLeaves st') leaves "state").1
         match bad, bad2, ls with
         | none, none, some (some m) => mismatch d m line "lstep"
@@ -201,7 +207,7 @@ def stepMethod (d : Drv) (line : String) : Drv × Option String :=
           -- `residue-amplification` when every accumulator is still inside its allowance
           let accOk := leaves.isEmpty ||
             (cmpAll (cmpLeaf ctx (ctx.allow (stateScale ctx st'))) (mLeavesAcc st') leaves "acc").1.isNone
-          let cls := if accOk then "residue-amplification" else "numeric-drift"
+          let cls := if isLocal then "numeric-drift" else if accOk then "residue-amplification" else "numeric-drift"
           let stR := (mLoad st' leaves).getD st'
           mismatch d m line cls (.method name params stR ctx leaves true spec')
         | some m, _, some (some m2) => mismatch d (m ++ " || " ++ m2) line "semantic"
